@@ -1135,3 +1135,68 @@ def _vbits(ty):
         return int(m.group(1)) * int(m.group(2))
     m = re.match(r'i(\d+)$', ty or '')
     return int(m.group(1)) if m else None
+
+
+def r16_scanline_readers_are_memoryless(ck, P, rid='C10-R16'):
+    """T-DEP: a scanline reader computes output pixel i from what it loads for pixel i.  No value loaded from the image is carried round
+    the pixel loop in a phi (a chroma sample kept for 'the second pixel of the pair' is keyed to the loop counter, not to the absolute
+    position, and goes stale when the scanline starts at an odd x)."""
+    from .factors import _loops_of
+    R = ck.rule(rid, 'in every scanline reader registered in accessors[] (both the direct and the accessor instantiation) no phi of a pixel-loop header receives, along the back edge, a value that comes from a load of image memory or from a read_func call: each output pixel depends only on what is read in its own iteration, so that the scanline reader agrees with the single-pixel reader whatever x the scanline starts at', floor=150)
+    n = 0
+    for unit in ('pixman-access.c', 'pixman-access-accessors.c'):
+        u = P.units.get(unit)
+        if u is None:
+            continue
+        _u, _g, t = accessor_table(P, unit)
+        L = _loops_of(u)
+        fns = set()
+        for row in t:
+            for col in ('fetch_scanline_32', 'fetch_scanline_float'):
+                nm = tables.fname(row.get(col))
+                if nm:
+                    fns.add(nm)
+        for fn in sorted(fns):
+            f = u.functions.get(fn)
+            if f is None:
+                continue
+            for lp in L.get(fn, []):
+                hdr = lp['header']; body = set(lp['blocks'])
+                for x in f.blocks[hdr].insts:
+                    if x.op != 'phi':
+                        continue
+                    n += 1; ck.saw(f)
+                    bad = None
+                    for a, bb in zip(x.a, x.d['bb']):
+                        if bb not in body or a[0] != 'v':
+                            continue
+                        seen = set(); work = [a]
+                        while work and bad is None:
+                            o = work.pop()
+                            if o[0] != 'v' or o[1] in seen:
+                                continue
+                            seen.add(o[1])
+                            y = f.by_id[o[1]]
+                            if y.bb.id not in body:
+                                continue
+                            if y.i == x.i:
+                                continue
+                            if y.op == 'load':
+                                r = f.root(f.path(y.a[0]))
+                                if r[0] != 'alloca':
+                                    bad = y
+                                continue
+                            if y.op == 'call':
+                                if y.callee is None:
+                                    bad = y             # read_func
+                                continue
+                            if y.op == 'getelementptr':
+                                work.append(y.a[0]); continue
+                            work.extend(q for q in y.a if q and q[0] == 'v')
+                    where = '%s/%s: loop at block %d, phi %s' % (unit, fn, hdr, x.dv or x.i)
+                    if bad is not None:
+                        ck.violation(R, fn, 'value carried round the pixel loop', '%s keeps a value read from the image (%s at %s) in a variable that lives across iterations of its pixel loop (%s): the pixel written in one iteration depends on what an earlier iteration read, so the result depends on where the scanline starts and differs from the single-pixel reader' % (fn, bad.op, bad.loc(), x.dv or 'phi'), bad.loc())
+                    else:
+                        ck.ok(R, where)
+    if n == 0:
+        raise AnalysisBroken('%s: no pixel loop found in the scanline readers of accessors[]' % rid)
